@@ -147,16 +147,17 @@ func NewSplitCarReader(
 
 		size := int(fi.Size())
 
-		// if local file, check the size:
+		// if local file, check the size: the piece holds its header, the content, and after
+		// the content the subset node (the last piece also the epoch node) written by split-car.
 		if _, ok := fi.(*FileSplitCarReader); ok {
-			expectedSize := int(cf.HeaderSize) + int(cf.ContentSize) // NOTE: valid only for pre-upload split CARs. They get padded after upload.
-			if size != expectedSize {
+			expectedMinSize := int(cf.HeaderSize) + int(cf.ContentSize)
+			if size < expectedMinSize {
 				return nil, fmt.Errorf(
-					"remote file %q has unexpected size: saved=%d actual=%d (diff=%d)",
+					"local file %q has unexpected size: expected min size=%d actual=%d (diff=%d)",
 					cf.Name,
-					expectedSize,
+					expectedMinSize,
 					size,
-					expectedSize-size,
+					expectedMinSize-size,
 				)
 			}
 		}
